@@ -54,6 +54,9 @@ CHECKS = {
  "C08": ("prefix/family coverage (who-may-call) + field agreement between exporter and importer + absence of authorization guards on the import call tree + loop-shape (no conditional skip) + key/value provenance of exported entries",
          "Every store family handlers write is exported and imported through the same family's accessors, key type and separator; AOL/DID entries are stored whole and untouched; every Denom/Pnft field (incl. the current Owner) is read on the import call tree; no actor-vs-owner guard on the import path; exported key and value come from the same store entry; no export/import/list loop skips entries; no exporter iterates a Go map.",
          "Trusts module manager dispatch, JSON/proto round trips; does not compare query answers."),
+ "C17": ("panic-site obligations over the functions reachable from outside-controlled entry points: explicit panics vs ValidateBasic accept condition (unsatisfiability), Must* call-site preconditions, nil-dereference of wire pointers with preconditions propagated to call sites, constant-index/slice bounds vs dominating length facts, library preconditions",
+         "Every panic site (explicit, Must*, nil-deref of nillable wire pointers / generated getter results / query requests, constant index and slice bounds, cipher.NewCTR / pbkdf2.Key / regexp.MustCompile preconditions) in hand-written code reachable from ValidateBasic/GetSigners/GetSignBytes, message and query handlers, the key store, block hooks and the DID codec callbacks has a discharged obligation.",
+         "Trusts the SDK, gogoproto Unmarshal (no nil elements), Go runtime; variable-index bounds inside compkey loops are covered by C18's linear-normal-form clauses; resource exhaustion not decided."),
 }
 
 PENDING_REASON = "check not built yet in this round (planned per DESIGN.md section 4); no claim is made until the checker rule exists"
